@@ -30,6 +30,10 @@ for sid, m in sorted(metas.items(), key=lambda kv: (rnd(kv[0]), kv[0])):
     rows.append('| %s | %s | %s | %s | %s | %s |' % (sid, m['property'], ch, needs, status.replace('|','\\|'), ('**missed at first** - ' + st) if missed else (st or 'caught as built')))
 hdr = []
 hdr.append('Seeded faults kept under `/verif/seeded/<id>/` (`patch.diff`, the sub-agent\'s `demo_test.go` + `demo_path.txt` + `README.md`, `meta.json`). Each was produced by a fresh sub-agent that saw only the property text and a scratch worktree (from round 2 on the agents were also told which ideas earlier rounds had used and which themes were exhausted, to force diversity), and was kept only after `tools_seed_verify.sh` confirmed in a scratch worktree that the demonstration passes on the unchanged tree and fails with the patch while `go build`, `go vet` and the 111-test suite still pass. "Caught by" is the first finding key printed by the named quick check in the last full matrix run (`tools_seeded_all.sh`: `git -C /repo apply`, `./check <ID> quick`, `git -C /repo apply -R`), i.e. with the checks as they are now.')
+if os.path.exists('/verif/seeded/MATRIX_RERUN.txt'):
+    rr = open('/verif/seeded/MATRIX_RERUN.txt').read().split()
+    hdr.append('')
+    hdr.append('The last *full* matrix run dates from the end of round 9; since then every new round was run in full, and at the end of round 11 the matrix was re-run (on private scratch worktrees, `tools_matrix_par.sh` / `devmut`) with the checks and generators as they are now for all %d round-10 and round-11 seeds, for %s, and for a random sample of the others - %d seeds in all (listed in `seeded/MATRIX_RERUN.txt`); every one of them is still caught. Rows of seeds not in that list show the result of the last run that included them.' % (sum(1 for x in rr if x[-1] in 'stuv'), ('every earlier seed that had been missed at first' if all(k in rr for k, m in metas.items() if m.get('missed_at_first')) else '%d of the %d earlier seeds that had been missed at first' % (sum(1 for k, m in metas.items() if m.get('missed_at_first') and k in rr and k[-1] not in 'uv'), sum(1 for k, m in metas.items() if m.get('missed_at_first') and k[-1] not in 'uv'))), len(rr)))
 hdr.append('')
 hdr.append('Totals: %d seeded faults + %d reverted fixes. Missed by the check as it stood when the fault arrived, then caught after strengthening: %s. No seeded fault remains undetected (a few are caught by a neighbouring property\'s check rather than by the one the agent was given - the "caught by" column names the check); every strengthening was re-run on the unchanged tree before it was kept.' % (sum(v[0] for k,v in per_round.items() if k), per_round.get(0,[0,0])[0], '; '.join('round %d: %d of %d' % (k, v[1], v[0]) for k, v in sorted(per_round.items()) if k)))
 hdr.append('')
